@@ -62,7 +62,13 @@ mod assignment_post_conversion_validation_rules {
         left_side: &Expression,
         right_side: &ExpressionPos,
     ) -> Result<(), LintErrorPos> {
-        if right_side.can_cast_to(left_side) {
+        if matches!(
+            left_side,
+            Expression::BuiltInFunctionCall(_, _) | Expression::FunctionCall(_, _)
+        ) {
+            // e.g. the MID$ statement, which is not supported: a call cannot be assigned to
+            Err(LintError::VariableRequired.at(right_side))
+        } else if right_side.can_cast_to(left_side) {
             Ok(())
         } else {
             Err(LintError::TypeMismatch.at(right_side))
